@@ -58,8 +58,8 @@ CLAIMS["C05"] = ("Proof-level (Kani, complete per edge_bits) that proofs survive
 CLAIMS["C06"] = ("Proof-level (Verus, extracted text) at two levels. Pipeline: pipe::process_block leaves the stored head untouched on EVERY error path and when the block has no more work, in which case the extension is "
     "force-rolled-back (closure lifted and verified); rewind_and_apply_fork / rewind_and_apply_header_fork re-apply exactly the fork's stored blocks/headers after rewinding to the common ancestor. Store: AppendOnlyFile::rewind/discard -- "
     "discard restores the last flushed view (buffer emptied, start position back to the flushed size, backup cleared) after any rewind, with 'flushed' as the invariant; read_from_buffer in range; PMMRBackend::discard discards "
-    "hash file, data file and leaf set together. That txhashset::extending really discards on rollback/Err and that an LMDB child batch aborts on drop are assumed, not decided (structs holding &mut borrows; LMDB).",
-    VERUS_TB + "File/Mmap external; the variable-size (size file) path is abstracted by T6 helpers; txhashset::extending assumed as stated.", "Verus contracts on extracted real functions", "6 C06")
+    "hash file, data file and leaf set together. txhashset::extending and header_extending themselves (real text, arbitrary closure, the real &mut borrows): on Err or forced rollback every MMR backend gets discard(), none is synced, sizes and the bitmap accumulator are untouched; commit/sync/sizes only on Ok without rollback. process_block_header(s) share the C03 units. That an LMDB child batch aborts on drop is assumed, not decided.",
+    VERUS_TB + "File/Mmap external; the variable-size (size file) path is abstracted by T6 helpers; obligations of extending/header_extending are assertions at the exits against a ghost snapshot taken after the closure ran.", "Verus contracts on extracted real functions", "6 C06")
 CLAIMS["C10"] = ("Proof-level (Kani, complete) for the fixed-size consensus types decided so far: KernelFeatures (all four variants), FeeFields, NRDRelativeHeight: for ALL 17-byte strings x ALL u32 protocol "
     "versions x both NRD settings, whatever read accepts re-encodes byte-identically (unknown tags, non-zero reserved bytes, out-of-range heights refused); decode(encode(v)) == v for all values and versions; "
     "the hash-mode byte stream is version independent; Inputs hash-mode stream version independent; read_multi on an empty count (Verus); verify_sorted_and_unique. See the evidence for the full type list (chain, p2p, pow types). Full containers (bodies, blocks, segments) are not under contract.",
@@ -77,9 +77,11 @@ CLAIMS["C14"] = ("The admission clauses, proof-level. (Verus, extracted text) Tr
     ">> max fee_shift and weight * base. Joint validity of the pool contents against the chain (Pool::add_to_pool / reconcile / evict / bucket logic: iterator chains over aggregates), reorg-cache handling and the mineable set are history properties and are not decided.",
     VERUS_TB + KANI_TB + "the pools' own add_to_pool / reconcile are abstract callees with ghost logs; convert_tx_v2 assumed to preserve the fee functions; counts installed with Vec::set_len (no element is read); fee fold bounded to 2 kernels.",
     "Verus conjunction contracts on the extracted admission path + Kani full-domain harnesses on the real weight/fee functions", "6 C14")
-CLAIMS["C15"] = ("Arithmetic only, proof-level (Kani, all u64): chunk_start_idx(i) == 1024*chunk_idx(i) <= i < +1024, monotone; the in-chunk index used by apply_from is always inside the chunk. "
-    "Path independence of the accumulator across histories, restart and rejection of tampered output roots are not decided.",
-    KANI_TB, "Kani full-domain harness on the real functions", "6 C15")
+CLAIMS["C15"] = ("Proof-level for the incremental-update plumbing. (Verus, extracted text) Extension::apply_to_bitmap_accumulator hands BitmapAccumulator::apply the affected leaf indices SORTED, the leaf iterator starting at the chunk start of the "
+    "smallest one and size = number of output leaves (what apply's rebuild-from-the-earliest-chunk logic relies on); txhashset::extending never installs the accumulator of a rolled-back or failed extension (shared with C06); "
+    "chunk_start_idx(i) == i - i % 1024. (Kani, all u64) chunk_start_idx(i) == 1024*chunk_idx(i) <= i < +1024, monotone; the in-chunk index used by apply_from is always inside the chunk. "
+    "apply_from / rewind_prior / pad_left themselves (peekable iterators over a hashing MMR), path independence across whole histories, restart and rejection of tampered output roots are not decided.",
+    VERUS_TB + KANI_TB + "BitmapAccumulator::apply is an abstract callee whose stated precondition (sorted, aligned start) is taken from its body's own comment.", "Verus contracts on extracted real functions + Kani full-domain harness", "6 C15")
 CLAIMS["C19"] = ("Header level, proof-level (Kani): for ALL 11-byte headers x chain types x versions, wrong magic is refused having read only the magic bytes; a known type is accepted only with "
     "msg_len <= 4 x the published per-type limit (independent table); unknown types only within the default limit; nothing within limits is refused; MsgHeader round trip. Verus: negotiate_protocol_version returns the lower version; the self-connection nonce ring (next_nonce) always contains the nonce it hands out, only ever holds old nonces plus the new one, loses at most one entry and only when full, and stays below its cap. Codec buffering under "
     "fragmentation, Headers batching and socket-level handshake refusals are not under contract.",
